@@ -304,7 +304,14 @@ def run_case(case):
             W("cli-reuse-run-fails", f"Cli object: parse_args({first}); run(); parse_args({second}); run(){'; run()' if case['again'] else ''} failed: "
                                      f"{r.stderr.strip().splitlines()[-1][:200] if r.stderr.strip() else r.returncode}")
         else:
-            body = r.stdout.split('"""\n', 2)[-1]
+            body = r.stdout  # (the header holds the command line, which names the disabled types: cut the first statement off)
+            try:
+                import ast
+                first = ast.parse(body).body[0]
+                if isinstance(first, ast.Expr) and isinstance(first.value, ast.Constant) and isinstance(first.value.value, str):
+                    body = "\n".join(body.split("\n")[first.end_lineno:])
+            except (SyntaxError, ValueError, IndexError):
+                pass
             for n in sorted(gone):
                 # frameworks other than pydantic spell the pseudo-type by its class name; pydantic annotates the actual type
                 if case["fw"] != "pydantic" and re.search(rf"\b{n}\b", body):
